@@ -2,7 +2,43 @@
 from common import *  # noqa
 import dbtie
 
-PROFILE = {'scenario_pref': ['buffered_handle', 'none_name', 'merge_rename', 'odd_strings', 'substring_names', 'substring_names', 'handle_unset', 'stale_handle', 'getter_memo', 'handle_sorted', 'far_sorted', 'handle_times'], 'p_write': 0.3, 'p_plain': 0.5, 'handle_writes': True, 'writes': {'insert': 3, 'insert_multiple': 1, 'remove': 1, 'drop': 1, 'remove_all': 0.3, 'update': 1, 'reindex': 0.5, 'reopen': 0.5, 'handle': 5}}
+PROFILE = {'scenario_also': ['dotted_keys'], 'scenario_pref': ['buffered_handle', 'none_name', 'merge_rename', 'odd_strings', 'substring_names', 'substring_names', 'handle_unset', 'stale_handle', 'getter_memo', 'handle_sorted', 'far_sorted', 'handle_times'], 'p_write': 0.3, 'p_plain': 0.5, 'handle_writes': True, 'writes': {'insert': 3, 'insert_multiple': 1, 'remove': 1, 'drop': 1, 'remove_all': 0.3, 'update': 1, 'reindex': 0.5, 'reopen': 0.5, 'handle': 5}}
+
+
+def direct_handle_alone(ck, tf):
+    """a Measurement handle is the view of its database for as long as the caller holds the HANDLE: `TinyFlux(..).measurement(name)` kept from a
+    function, `del db`, a rebound name - inserts through it, its length, iteration and reads answer as the restricted database does"""
+    import gc
+    from datetime import datetime, timedelta, timezone
+    t0 = datetime(2022, 5, 1, tzinfo=timezone.utc)
+    bad = []
+    for csv in (False, True):
+        def make():
+            if csv:
+                d = ck.work / "alone"
+                d.mkdir(exist_ok=True)
+                db = tf.TinyFlux(str(d / "db.csv"))
+            else:
+                db = tf.TinyFlux(storage=tf.storages.MemoryStorage)
+            db.insert(tf.Point(time=t0, measurement="other", fields={"v": 0}))
+            return db.measurement("cpu")
+        h = make()
+        gc.collect()
+        got = []
+        try:
+            h.insert(tf.Point(time=t0 + timedelta(seconds=1), tags={"k": "x"}, fields={"v": 1}))
+            h.insert_multiple([tf.Point(time=t0 + timedelta(seconds=2), fields={"v": 2})])
+            got = [len(h), len(h.all()), sum(1 for _ in h), h.count(tf.FieldQuery().v >= 1), h.get_field_values("v"), [p.measurement for p in h.all()]]
+        except Exception as e:  # noqa
+            got = [type(e).__name__, str(e)[:120]]
+        want = [2, 2, 2, 2, [1, 2], ["cpu", "cpu"]]
+        if got != want:
+            bad.append({"storage": "csv" if csv else "memory", "got": got, "want [len(h), len(h.all()), points iterated, count(v >= 1), get_field_values('v'), measurements]": want})
+    for item in bad[:1]:
+        ck.violation({"kind": "failing-input", "why": "a handle obtained as TinyFlux(..).measurement('cpu') - the caller keeps the handle, not the database object - "
+                      "does not answer as the restricted database", "steps": "db = TinyFlux(..); db.insert(Point(measurement='other')); h = db.measurement('cpu'); del db; "
+                      "gc.collect(); h.insert(p1); h.insert_multiple([p2]); reads through h", **item})
+    return {"handle_kept_without_its_database_checked": 2}
 
 
 def main(tier, seed):
@@ -18,6 +54,6 @@ def main(tier, seed):
         run_translator("py2coq_dbget.py", "tinyflux", "gen/DbGetGen.v", refused)
     return dbtie.db_check("C10", tier, seed, PROFILE, 650, 6000, "Prop_C10",
                           "user callables and re are an environment the theorems quantify over; the tie instantiates them with the twin table",
-                          pre=regen, extra_cov={"translator": {"source": "tinyflux/measurement.py (forwarding methods) + signatures of tinyflux/database.py -> coq/gen/HandleGen.v (regenerated on this run)",
+                          pre=regen, direct=direct_handle_alone, extra_cov={"translator": {"source": "tinyflux/measurement.py (forwarding methods) + signatures of tinyflux/database.py -> coq/gen/HandleGen.v (regenerated on this run)",
                                                                "refused": refused, "equivalence_theorem": "gen_forward_eq"}})
 
